@@ -24,6 +24,7 @@ type world struct {
 	discrete bool // correct observers report one of two values per stream (so that a mode aggregate exists)
 	verbose  bool // Config.VerboseLogging (must not change any result)
 	alias    int  // when non-zero: every stream s also exists as the different stream s+alias (same low bits)
+	exact    bool // correct observers report exactly the base time and the clock moves by exactly one report interval (or a nanosecond off)
 }
 
 var formatsPool = []uint32{1, 2, 4, 42}
@@ -106,6 +107,23 @@ func (w *world) rndChannelID() int {
 // advance moves the clock: forward by sub-second / multi-second steps, sometimes not at all or backwards
 func (w *world) advance() {
 	g := w.g
+	if w.exact {
+		step := w.interval
+		if w.version == 0 || step == 0 || step > 1<<40 {
+			step = 1_000_000_000
+		}
+		switch g.R.Intn(6) {
+		case 0:
+			w.now += step - 1
+		case 1:
+			w.now += step + 1
+		case 2:
+			w.now += 2 * step
+		default:
+			w.now += step
+		}
+		return
+	}
 	switch g.R.Intn(10) {
 	case 0: // stall
 	case 1: // backwards
@@ -304,6 +322,9 @@ func (w *world) round(p votePlan, streams []int) (obs []any, honest []any) {
 		ts := w.now + uint64(g.R.Intn(100_000_000))
 		if ts >= 50_000_000 {
 			ts -= 50_000_000
+		}
+		if w.exact {
+			ts = w.now
 		}
 		if faulty[i] {
 			switch g.R.Intn(6) {
